@@ -13,6 +13,8 @@ import (
 //	E  entries (+ hard state)           needs an fsync
 //	V  term / vote change only          needs an fsync
 //	C  commit index only                tan does not fsync it on its own
+//	S  a snapshot record only (received from the leader: same term and vote as the
+//	   last fsynced state, no entries, commit moved to the snapshot)   needs an fsync
 //
 // followed by a power cut right after the acknowledged batch (k beyond the
 // workload) or at every FS operation (thorough). In the multiplexed tan mode
@@ -21,7 +23,7 @@ import (
 // updates before it.
 
 var batchOrders = [][]int{{0, 1, 2}, {0, 2, 1}, {1, 0, 2}, {1, 2, 0}, {2, 0, 1}, {2, 1, 0}}
-var batchPatterns = []string{"ECC", "VEC", "CEC", "EEC", "CVC", "EVC", "VCC", "CCE", "CEV", "ECE"}
+var batchPatterns = []string{"ECC", "VEC", "CEC", "EEC", "CVC", "EVC", "VCC", "SCC", "CSC", "CCE", "CEV", "ECE", "CCS", "SEC"}
 
 func genBatchWorkload(r *vh.Rand, order []int, pattern string) []op {
 	ref := newCrashRef()
@@ -65,6 +67,13 @@ func genBatchWorkload(r *vh.Rand, order []int, pattern string) []op {
 				c = nd.st.Commit
 			}
 			ups = append(ups, update{N: n, St: hstate{Term: term[n], Vote: vote[n], Commit: c}})
+		case 'S':
+			if term[n] == 0 {
+				term[n], vote[n] = 1, 1
+			}
+			idx := nd.last() + uint64(1+r.Intn(20))
+			ups = append(ups, update{N: n, St: hstate{Term: term[n], Vote: vote[n], Commit: idx},
+				Ss: snap{Index: idx, Term: term[n], Tag: 700 + idx}})
 		default: // C
 			c := nd.last()
 			if nd.st != nil && nd.st.Commit >= c {
@@ -89,7 +98,7 @@ func genBatchCrashCases(r *vh.Rand, tier string) []string {
 			pats = batchPatterns
 		} else {
 			// the last update needs no fsync, an earlier one does; plus a random one
-			pats = []string{batchPatterns[(i*2)%7], batchPatterns[r.Intn(len(batchPatterns))]}
+			pats = []string{batchPatterns[(i*3)%9], batchPatterns[r.Intn(len(batchPatterns))]}
 		}
 		for j, p := range pats {
 			ops := genBatchWorkload(r, order, p)
@@ -114,6 +123,21 @@ func genCrashCases(r *vh.Rand, tier string, n int) []string {
 	// one save with more than 2048 records in its write batch, the power cut at every
 	// FS operation (a save committed in pieces is torn between its WAL syncs)
 	out = append(out, crashLine("crbig.plain", "plain", 0, "all", bigSaveOps()))
+	// a snapshot received from the leader is recorded through SaveRaftState: an update
+	// whose only content that matters is the snapshot record (same term and vote as the
+	// last fsynced state, no entries; commit moved to the snapshot or left alone). It is
+	// acknowledged, then the power is cut. A batch of entries separates it from a local
+	// SaveSnapshots (tan forgets its remembered state after that and would fsync anyway)
+	for i, moved := range []bool{true, false} {
+		ops := snapshotOnlyWorkload(vh.NewRand(r.U64()^0x55a9), moved)
+		for _, kind := range crashKinds {
+			k := "999999"
+			if tier == "thorough" {
+				k = "all"
+			}
+			out = append(out, crashLine(fmt.Sprintf("crsn%d.%s", i, kind), kind, 0, k, ops))
+		}
+	}
 	// log rollovers, then RemoveEntriesTo (+ compaction): every FS operation, those of
 	// tan's background deletion of obsolete files included
 	nr := 1
@@ -162,5 +186,39 @@ func genRemovalWorkload(r *vh.Rand) []op {
 		emit(op{Kind: "REMTO", N: 0, A: nd.last() - 1})
 	}
 	save(0, 1)
+	return ops
+}
+
+func snapshotOnlyWorkload(r *vh.Rand, commitMoved bool) []op {
+	ref := newCrashRef()
+	var ops []op
+	emit := func(o op) {
+		if ref.wf(o) {
+			ops = append(ops, o)
+			ref.apply(o)
+		}
+	}
+	tag := uint64(900)
+	ents := func(k int, commit uint64) {
+		nd := &ref.nodes[0]
+		u := update{N: 0, I0: nd.last() + 1, St: hstate{Term: 2, Vote: 1, Commit: commit}}
+		for j := 0; j < k; j++ {
+			tag++
+			u.Ents = append(u.Ents, ent{Index: u.I0 + uint64(j), Term: 2, Tag: tag, Len: uint64(8 + r.Intn(40))})
+		}
+		emit(op{Kind: "SAVE", Ups: []update{u}})
+	}
+	ents(3+r.Intn(3), 1)
+	// a locally created snapshot, then more entries
+	emit(op{Kind: "SNAP", N: 0, Ss: snap{Index: 2, Term: 2, Tag: 41}})
+	ents(2+r.Intn(3), 2)
+	nd := &ref.nodes[0]
+	idx := nd.last() + uint64(5+r.Intn(50))
+	commit := uint64(2)
+	if commitMoved {
+		commit = idx
+	}
+	emit(op{Kind: "SAVE", Ups: []update{{N: 0, St: hstate{Term: 2, Vote: 1, Commit: commit},
+		Ss: snap{Index: idx, Term: 2, Tag: 42}}}})
 	return ops
 }
